@@ -10,7 +10,7 @@
    those evaluations.  [Unmod _] in general = outside the modelled fragment (never compared).
    CPython's expression PARSER is not modelled: the harness sends the AST it obtained from ast.parse. *)
 From Coq Require Import String Ascii List Bool ZArith QArith Qabs Qround.
-From Tally Require Import Lib.Str C10.Model.
+From Tally Require Import Lib.Str Lib.NumOps Gen.ClassificationPy C10.Model.
 Import ListNotations.
 Open Scope Q_scope.
 
@@ -664,6 +664,33 @@ Record config := { g_vars : defs; g_views : list view }.
 Fixpoint has_dup (l : list string) : bool :=
   match l with [] => false | x :: r => (mem x r || has_dup r)%bool end.
 Definition parse_ok (cfg : config) : bool := negb (has_dup (map v_name (g_views cfg))).
+
+(* ---- analyzer.analyze_transactions: the part of by_merchant that the views read ----------------- *)
+Record txn := { t_merchant : string; t_category : string; t_subcategory : string;
+                t_tags : list string; t_pay : payment (* date, raw amount *) }.
+
+Definition q_ops : numops Q := {|
+  nzero := 0; nabs := Qabs;
+  ngt0 := fun x => qlt 0 x; nlt0 := fun x => qlt x 0; nge0 := fun x => qle 0 x; nle0 := fun x => qle x 0;
+  nadd := Qplus; nsub := Qminus; lower_fn := lower |}.
+
+(* effective_amount = normalize_amount(txn['amount'], tags) — translated from classification.py *)
+Definition eff (t : txn) : payment :=
+  {| p_year := p_year (t_pay t); p_month := p_month (t_pay t); p_day := p_day (t_pay t);
+     p_amount := Py.normalize_amount q_ops (p_amount (t_pay t)) (Some (t_tags t)) |}.
+
+(* by_merchant[txn['merchant']]: created at the first transaction of that name (dict order), then
+   category / subcategory overwritten by every transaction, tags.update(...), transactions.append(...) *)
+Fixpoint bm_add (t : txn) (ms : list merchant) : list merchant :=
+  match ms with
+  | [] => [ {| m_name := t_merchant t; m_category := t_category t; m_subcategory := t_subcategory t;
+               m_tags := t_tags t; m_payments := [eff t] |} ]
+  | m :: r => if String.eqb (t_merchant t) (m_name m)
+              then {| m_name := m_name m; m_category := t_category t; m_subcategory := t_subcategory t;
+                      m_tags := (m_tags m ++ t_tags t)%list; m_payments := (m_payments m ++ [eff t])%list |} :: r
+              else m :: bm_add t r
+  end.
+Definition by_merchant (txns : list txn) : list merchant := fold_left (fun ms t => bm_add t ms) txns [].
 
 Section Pipeline.
   Variable cfg : config.
